@@ -71,9 +71,51 @@ func smallCases(n int, mask uint32, wakeCtr *int, out []*caseSpec) []*caseSpec {
 		mk("reset", nil)
 		mk("tail", nil)
 		p0 := parts[0]
+		first, last := 0, 0
 		for r := 1; r <= len(p0); r++ {
 			if p0[r-1] == '\n' {
 				mk("continue", map[string]int64{"default": int64(r)})
+				if first == 0 {
+					first = r
+				}
+				last = r
+			}
+		}
+		if last > first { // two streams with different saved offsets: reading resumes at the smaller one
+			mk("continue", map[string]int64{"stdout": int64(last), "stderr": int64(first)})
+		}
+	}
+	return out
+}
+
+// notifyCases: the directed family "a write notification for the file is
+// processed while a read round is in progress" (should_watch_file_changes): for
+// one content, every split into 2 or 3 appends and every read of a round but
+// the last as the moment of the notification. The file only grows, so the
+// notification must not change anything that is delivered afterwards.
+func notifyCases(n int, mask uint32, buf int, out []*caseSpec) []*caseSpec {
+	content := shapeContent(n, mask)
+	for _, cuts := range splitsOf(n) {
+		if len(cuts) == 0 {
+			continue
+		}
+		parts := cutParts(content, cuts)
+		for k := 0; k+1 < len(parts); k++ {
+			if len(parts[k+1]) == 0 && (k+2 >= len(parts) || len(parts[k+2]) == 0) {
+				continue // nothing is delivered after the notification
+			}
+			reads := len(parts[k])/buf + 2
+			for at := 1; at <= reads; at++ {
+				w := make([]byte, len(parts))
+				for i := 1; i < len(parts); i++ {
+					// how the job is woken for the next round: maintenance, a write
+					// notification, or a notification that is not a write (create /
+					// rename of the same inode, symlink maintenance)
+					w[i] = "mwn"[(at+i+k)%3]
+				}
+				na := make([]int, len(parts))
+				na[k] = at
+				out = append(out, &caseSpec{Parts: parts, Op: "reset", Wake: w, NotifyAt: na})
 			}
 		}
 	}
@@ -81,10 +123,28 @@ func smallCases(n int, mask uint32, wakeCtr *int, out []*caseSpec) []*caseSpec {
 }
 
 type smallTask struct {
+	Kind     string // "" = two files per worker, full start/limit matrix; "notify" = notifyCases
 	Cfg      runConfig
 	N        int
 	MaskFrom uint32
 	MaskTo   uint32 // exclusive
+}
+
+func notifyTasks(maxN int, bufs []int) []smallTask {
+	var ts []smallTask
+	for _, b := range bufs {
+		for n := 1; n <= maxN; n++ {
+			total := uint32(1) << uint(n)
+			for from := uint32(0); from < total; from += 16 {
+				to := from + 16
+				if to > total {
+					to = total
+				}
+				ts = append(ts, smallTask{Kind: "notify", Cfg: runConfig{Buf: b}, N: n, MaskFrom: from, MaskTo: to})
+			}
+		}
+	}
+	return ts
 }
 
 func smallTasks(maxN int, bufs []int, limits []runConfig) []smallTask {
@@ -218,7 +278,7 @@ func genLargeSpec(rng *rand.Rand, cfg runConfig, bigLine int) *caseSpec {
 	// append schedule
 	nParts := 1 + rng.Intn(5)
 	cutSet := map[int]bool{}
-	for len(cutSet) < nParts-1 {
+	for tries := 0; len(cutSet) < nParts-1 && tries < 40; tries++ {
 		var c int
 		if len(content) == 0 {
 			break
